@@ -105,7 +105,8 @@ def idLib : StdNum.Lib :=
 /-- the collection functions proved total end to end, by the names of `Stdlib.byName`, with their Go variables -/
 def collTable : List (String × String) :=
   [("hasindex", "HasIndexFunc"), ("keys", "KeysFunc"), ("values", "ValuesFunc"), ("reverse", "ReverseListFunc"),
-   ("coalescelist", "CoalesceListFunc"), ("compact", "CompactFunc"), ("range", "RangeFunc")]
+   ("coalescelist", "CoalesceListFunc"), ("compact", "CompactFunc"), ("range", "RangeFunc"),
+   ("chunklist", "ChunklistFunc"), ("index", "IndexFunc")]
 
 /-- one parameter declaration as comparable data -/
 def paramKey (p : Fn.Param) : Ty × List Bool := (p.ty, [p.allowNull, p.allowUnknown, p.allowDynamic, p.allowMarked])
